@@ -163,7 +163,7 @@ CHECKS = {
             'DESIGN.md 3/C12'),
 }
 
-EXTRA = {'C01': ' Also: > 2**16 channels, float32 frame data, 100-400 sub-samples, and a second injection after the user moved frame.ts. Options reach add_signal spelled out, with documented defaults omitted, or positionally; numpy.float64 scalars and integer bandpass levels.', 'C02': ' Also: blocks beyond 4096 spectra, and a backend re-used after a successful or an aborted recording must write what a fresh backend writes from the same antenna state.', 'C03': ' Also: frames built from in-session Waterfall objects, a second frame in the session, loads of blimpy time selections.', 'C04': ' Also: keys beginning with END, user PKTSTART, a second recording with the same backend, blimpy GuppiRaw block counts where its conventions coincide. Lower-case keys and keys differing only in case; the same path held another recording earlier in the process.', 'C05': ' Also: 2**16..2**20 channels and orientation flags given as numpy.bool_ / int. Result shapes of array-valued conversions are compared before values.', 'C06': ' Also: > 2**16 channels, frames with an earlier cadence injection, state compared again after SNR queries, returned arrays must stay intact. In a quarter of the cases the noise estimates are first read after the injections and compared with an identically built twin; three call styles.', 'C07': ' Also: antenna arrays, Quantity arguments, and a recording made after an aborted recording. The same path held another recording earlier; quick-look reducers called by keyword and in positional order.', 'C08': ' Also: copied filterbank objects continuing independently, and one call beyond 2**22 output samples. Chunks as strided / part-of-complex / negative-stride / read-only arrays; the cache keyword omitted.', 'C09': ' Also: integer-typed inputs, refresh periods above 256 and numpy-typed periods. Varying inputs of constant magnitude.', 'C10': ' Also: equal-sized consecutive requests, update_noise(k) followed by get(k), single-precision custom sources.', 'C11': ' Also: exact half-integer df*dt, rejected calls, zero-width noise, preloaded frames, parameters below 1e-8. Returned arrays are re-checked after every later operation; shared rows with deviation above the mean; several samples at the minimum must sit on a table floor.', 'C12': " Also: Waterfall headers of original and copy, copies of frames with user-set / consolidated time axes, quantisers with statistics taken once. Second noise sources per stream; header/container/data of a copied Waterfall must be the copy's own.", 'C13': ' Also: Quantity arguments in kHz/MHz/GHz, numpy-scalar levels, a second call on the same frame, an earlier call on a much coarser frame, > 2**16 channels. Whole multiples of the unit drift rate as a weighted class; three call styles of the helper.', 'C14': ' Also: per-antenna/polarisation digitiser lists, lazily estimated channelised deviations, a recording after an aborted one, accounting after the clamp to the input length. The input path held another recording earlier in the process.', 'C15': ' Also: streams without sources, refused too-short requests, unsigned delay arrays.', 'C16': " Also: callbacks raising BaseException/KeyboardInterrupt, reversed and index-list selections, consolidated members, direct / sub-cadence / whole-cadence injections mixed on the same frames. Selecting a sub-cadence must leave every frame's start time as constructed; three call styles.", 'C17': ' Also: operations applied to derived, float32, waterfall-carrying, moved-axis and consolidated parents; exact half-channel shifts. numpy-integer slice bounds; integrate() with documented defaults omitted.', 'C18': ' Also: value-equal twin frames, single-ulp incompatibilities, a cadence constructed from a cadence.', 'C19': ' Also: the same file path or output directory used earlier in the session for another observation.', 'C20': ' Also: durations 3e-9..1e-5 blocks from a boundary; stream preview, earlier or aborted recording before the counted one; multi-file recordings. Array sources with delays 0..6; a backend built on the recording just made (equal / longer / shorter request, either length mode) must account for the blocks it writes.'}
+EXTRA = {'C01': ' Also: > 2**16 channels, float32 frame data, 100-400 sub-samples, and a second injection after the user moved frame.ts. Options reach add_signal spelled out, with documented defaults omitted, or positionally; numpy.float64 scalars and integer bandpass levels. One-sided and very distant bounding ranges; numpy scalars of any width as scalar components.', 'C02': ' Also: blocks beyond 4096 spectra, and a backend re-used after a successful or an aborted recording must write what a fresh backend writes from the same antenna state.', 'C03': ' Also: frames built from in-session Waterfall objects, a second frame in the session, loads of blimpy time selections.', 'C04': ' Also: keys beginning with END, user PKTSTART, a second recording with the same backend, blimpy GuppiRaw block counts where its conventions coincide. Lower-case keys and keys differing only in case; the same path held another recording earlier in the process. Empty string cards; stems with glob metacharacters.', 'C05': ' Also: 2**16..2**20 channels and orientation flags given as numpy.bool_ / int. Result shapes of array-valued conversions are compared before values. A sibling frame with the same fch1/df but other orientation or size is constructed first.', 'C06': ' Also: > 2**16 channels, frames with an earlier cadence injection, state compared again after SNR queries, returned arrays must stay intact. In a quarter of the cases the noise estimates are first read after the injections and compared with an identically built twin; three call styles. One-sided bounding ranges; a constant-signal helper injection under the same oracle.', 'C07': ' Also: antenna arrays, Quantity arguments, and a recording made after an aborted recording. The same path held another recording earlier; quick-look reducers called by keyword and in positional order. OBSBW must equal CHAN_BW times the channels per antenna.', 'C08': ' Also: copied filterbank objects continuing independently, and one call beyond 2**22 output samples. Chunks as strided / part-of-complex / negative-stride / read-only arrays; the cache keyword omitted. The caller overwrites its chunk buffer after every call.', 'C09': ' Also: integer-typed inputs, refresh periods above 256 and numpy-typed periods. Varying inputs of constant magnitude. Constants up to 1e307, custom deviations down to 1e-18.', 'C10': ' Also: equal-sized consecutive requests, update_noise(k) followed by get(k), single-precision custom sources.', 'C11': ' Also: exact half-integer df*dt, rejected calls, zero-width noise, preloaded frames, parameters below 1e-8. Returned arrays are re-checked after every later operation; shared rows with deviation above the mean; several samples at the minimum must sit on a table floor.', 'C12': " Also: Waterfall headers of original and copy, copies of frames with user-set / consolidated time axes, quantisers with statistics taken once. Second noise sources per stream; header/container/data of a copied Waterfall must be the copy's own. The two background polarisations must draw different noise.", 'C13': ' Also: Quantity arguments in kHz/MHz/GHz, numpy-scalar levels, a second call on the same frame, an earlier call on a much coarser frame, > 2**16 channels. Whole multiples of the unit drift rate as a weighted class; three call styles of the helper.', 'C14': ' Also: per-antenna/polarisation digitiser lists, lazily estimated channelised deviations, a recording after an aborted one, accounting after the clamp to the input length. The input path held another recording earlier in the process. Inputs without descriptive cards; output headers with template or user cards.', 'C15': ' Also: streams without sources, refused too-short requests, unsigned delay arrays. Complex custom sources on the background or the antennas.', 'C16': " Also: callbacks raising BaseException/KeyboardInterrupt, reversed and index-list selections, consolidated members, direct / sub-cadence / whole-cadence injections mixed on the same frames. Selecting a sub-cadence must leave every frame's start time as constructed; three call styles. Index selections as list, tuple or array.", 'C17': ' Also: operations applied to derived, float32, waterfall-carrying, moved-axis and consolidated parents; exact half-channel shifts. numpy-integer slice bounds; integrate() with documented defaults omitted.', 'C18': ' Also: value-equal twin frames, single-ulp incompatibilities, a cadence constructed from a cadence. Tuple selectors, frame-like non-frames, t_overwrite construction, mixed-case order strings.', 'C19': ' Also: the same file path or output directory used earlier in the session for another observation.', 'C20': ' Also: durations 3e-9..1e-5 blocks from a boundary; stream preview, earlier or aborted recording before the counted one; multi-file recordings. Array sources with delays 0..6; a backend built on the recording just made (equal / longer / shorter request, either length mode) must account for the blocks it writes. Durations that are exact multiples of the integration step.'}
 
 ALL = [f'C{i:02d}' for i in range(1, 21)]
 
